@@ -52,7 +52,7 @@ class Prop(PropBase):
     REQUIRED = ["Tpp.Props.C16." + n for n in (
         "C16_cells", "C16_index", "C16_index_onto", "C16_index_independent", "C16_region", "C16_region_enum",
         "C16_region_elements", "C16_resize", "C16_resize_chain")]
-    RULE = ("exhaustive: every (old size, new size) pair with widths and heights 0..6 (2401 pairs; thorough 0..8, 6561 "
+    RULE = ("cells are also assigned through *(begin()+k), inside a range-for and by region fills through the reference for_each_in_region hands out; a second canvas object takes copies (copy-assignment, copy-construction + move) which must not follow the original's later edits or resizes, and is assigned back; exhaustive: every (old size, new size) pair with widths and heights 0..6 (2401 pairs; thorough 0..8, 6561 "
             "pairs) on a canvas whose cells all hold pairwise different non-default elements (glyph byte derived from "
             "the coordinates, attribute varied): dump, resize, dump, full-region iteration, single-cell overwrite, "
             "resize back, const dump; every sub-rectangle (empty ones included) of a fully distinct 5x4 canvas through "
@@ -127,7 +127,7 @@ class Prop(PropBase):
                         # edge-biased coordinates: last column / bottom row often
                         x = rng.choice([0, w - 1, rng.randrange(w)])
                         y = rng.choice([0, h - 1, rng.randrange(h)])
-                        ops.append("px %d %d %s" % (x, y, element(x % 16, y % 16, salt % 6)))
+                        ops.append("%s %d %d %s" % (rng.choice(["px", "px", "pi", "pr"]), x, y, element(x % 16, y % 16, salt % 6)))
             if rng.random() < 0.6:
                 ops += fill(w, h, 4)
             else:
@@ -162,7 +162,22 @@ class Prop(PropBase):
                                                   rng.randrange(h - oy + 1)))
                 if w > 0 and h > 0 and rng.random() < 0.3:
                     ops.append("%s %d %d" % (rng.choice(["gt", "cgt"]), rng.randrange(w), rng.randrange(h)))
+                if w > 0 and h > 0 and rng.random() < 0.3:
+                    # a fill through the reference for_each_in_region hands out (attributed blanks included)
+                    ox = rng.randrange(w)
+                    oy = rng.randrange(h)
+                    e = rng.choice([element(ox % 16, oy % 16, (salt + 2) % 6), "5 32 0 0 0 9 0 0 0 1 0 0 22 24 27 25", "5 32 0 0 0 9 0 0 0 9 0 0 22 4 7 25"])
+                    ops.append("fl %d %d %d %d %s" % (ox, oy, rng.randrange(w - ox + 1), rng.randrange(h - oy + 1), e))
+                r2 = rng.random()
+                if r2 < 0.25:
+                    ops.append(rng.choice(["cp", "cc"]))          # a copy is taken …
+                elif r2 < 0.35:
+                    ops.append("bdump")                           # … and must not have followed the original's later edits / resizes
+                elif r2 < 0.4:
+                    ops.append("ba")
+                    ops.append("dump")
             ops.append("dump")
+            ops.append("bdump")
             ops.append("it 0 0 %d %d" % (w, h))
             cs.append(Case(line(w0, h0, ops), tag="chain-" + style))
         # ---- 5. random region iterations on non-square canvases
